@@ -3,7 +3,7 @@ import copy
 import math
 
 from ..backends import BACKENDS, Store
-from ..gen import (DAY_US, canon, dt_us, floor_ms, mk_event, rand_data, rand_duration, rand_event_spec, rand_instant,
+from ..gen import (DAY_US, batch_edge, canon, dt_us, floor_ms, mk_event, rand_data, rand_duration, rand_event_spec, rand_instant,
                    rand_json, rand_offset, td_us)
 from ._st import dump_bucket, meta_canon, obs, wreck_dict, wreck_event
 
@@ -35,6 +35,8 @@ def gen_case(rng, ctx):
     backend = BACKENDS[(ctx.evaluations + ctx.widx + rng.randrange(3)) % 3]
     if rng.random() < (0.04 if ctx.tier == "quick" else 0.08):
         n = rng.choice([99, 100, 101, 250, 51, 1000 if ctx.tier == "quick" else 5000])
+        if rng.random() < 0.5:
+            n = batch_edge(rng, 1100 if ctx.tier == "quick" else 11000)
         evs = []
         for i in range(n):
             s = rand_event_spec(rng, depth=1)
